@@ -256,6 +256,66 @@ def gen_C12(w, tier):
     sc.meta["rec"] = rec
     sc.pred = pred
     out.append(sc)
+    # the ladders as the element API drives them: the dedicated addition must only ever see a reduced scalar
+    # (scalars at and above the group order, including those with a bit-prefix L+2 on which an unreduced fast
+    # ladder adds P to P)
+    sc = w.scenario("C12/api-scalarmult", ("api-scalarmult",))
+    rec = []
+    Lq = L25519
+    be = w.eid()
+    sc.do("e.base %d %d" % (be, gid))
+    Bpt = None
+    ob = sc.impl_out[-1]
+    if ob.startswith("ok"):
+        enc = payload(ob)
+        v = int.from_bytes(enc, "little")
+        yb = v & ((1 << 255) - 1)
+        xs = E.xs_for_y(yb)
+        Bpt = [(x, yb) for x in xs if (x & 1) == (v >> 255)][0]
+    ns = [Lq, Lq + 1, Lq + 2, Lq + 3, 2 * (Lq + 2), 2 * (Lq + 2) + 1, 4 * (Lq + 2) + 3, 3 * Lq + 2, 2 * Lq, 2 * Lq - 1, 8 * Lq + 5, -1, -2, -(Lq + 2), 2 ** 255, 2 ** 256 + 7]
+    ns += [r.randrange(Lq, 4 * Lq) for _ in range(6 if not big else 60)]
+    for n_ in ns:
+        e_ = w.eid()
+        i = len(sc.lines)
+        sc.do("e.smul %d %d %d" % (e_, be, n_))
+        rec.append((i, n_))
+    sc.meta.update(rec=rec, B=Bpt)
+
+    def pred_api(io, sc):
+        Bp = sc.meta["B"]
+        if Bp is None:
+            return None
+        for (i, n_) in sc.meta["rec"]:
+            want = E.mul(Bp, n_ % Lq)
+            o = io[i]
+            if not o.startswith("ok") or payload(o) != E.encode(want):
+                return "Base.scalarmult(%d) is not (n mod L)*Base: %s" % (n_, o[:80])
+        return None
+    sc.pred = pred_api
+    out.append(sc)
+    for name, ps in w.gs.items():
+        if ps.kind != "ed" or not ps.toy:
+            continue
+        Lt = ps.q
+        sc = w.scenario("C12/api-scalarmult/%s" % name, ("api-scalarmult", "toy-exhaustive"))
+        b_ = w.eid()
+        sc.do("e.base %d %d" % (b_, ps.gid))
+        idx = {}
+        for n_ in range(-Lt - 2, 4 * Lt + 6):
+            e_ = w.eid()
+            idx[n_] = len(sc.lines)
+            sc.do("e.smul %d %d %d" % (e_, b_, n_))
+        sc.meta.update(idx=idx, L=Lt)
+
+        def pred_toy(io, sc):
+            idx, Lt = sc.meta["idx"], sc.meta["L"]
+            for n_, i in idx.items():
+                j = idx[n_ % Lt]
+                if not io[i].startswith("ok") or payload(io[i]) != payload(io[j]):
+                    return "Base.scalarmult(%d) differs from Base.scalarmult(%d) on the toy curve: %s vs %s" % (n_, n_ % Lt, io[i][:70], io[j][:70])
+            return None
+        sc.pred = pred_toy
+        out.append(sc)
     # field helpers
     sc = w.scenario("C12/field", ("field",))
     sc.do("ed.consts %d" % gid)
